@@ -441,7 +441,7 @@ pub fn c06(seed: u64, budget: u64) -> FOut {
 /// C11: suspicion timeout takes effect iff unrefuted; Down final until forgotten
 pub fn c11(seed: u64, budget: u64) -> FOut {
     let mut out = FOut::default();
-    out.rule = "exhaustive case table on the real crate: stored record {absent, Alive, Suspect, Down} x stored incarnation vs timer incarnation {<,=,>} x timer identity generation {older, same} vs stored x token {current, stale} x notify_down_members {on,off} x duplicate delivery, with a second active member keeping the instance connected; expected: effect iff token current, same identity, same incarnation, record active; otherwise no effect at all. Then random histories checking that a Down identity never becomes active again before its RemoveDown fires (or a newer identity supersedes it). distinct = distinct table rows + histories with at least one Down record".into();
+    out.rule = "exhaustive case table on the real crate: stored record {absent, Alive, Suspect, Down} x stored incarnation vs timer incarnation {<,=,>} x timer identity generation {older, same} vs stored x token {current, stale} x notify_down_members {on,off} x duplicate delivery, with a second active member keeping the instance connected; expected: effect iff token current, same identity, same incarnation, record active; otherwise no effect at all. Then genuine timers: the suspicion is raised by a real failed probe round (instance 0..2 refutations ahead of the member, member at incarnation 0/1/7) and the timer the instance scheduled itself is fired, unrefuted (must take effect) or after a header with a higher incarnation (must have none). Then random histories checking that a Down identity never becomes active again before its RemoveDown fires (or a newer identity supersedes it). distinct = distinct table rows + histories with at least one Down record".into();
     let own = VId::new(9, 1, 0, 0);
     let other = VId::new(2, 0, 0, 0);
     for notify in [false, true] {
@@ -489,6 +489,79 @@ pub fn c11(seed: u64, budget: u64) -> FOut {
                         }
                         if out.samples.len() < 2 {
                             out.samples.push(J::s(format!("{input:?} on {:?}", pre.members)));
+                        }
+                    }
+                }
+            }
+        }
+    }
+    // genuine timers: the suspicion is raised by a real failed probe round and the timer fired is the
+    // one the instance scheduled itself (own incarnation 0..2 refutations ahead, member at 0 / 1 / 7)
+    for own_bumps in 0..3u16 {
+        for minc in [0u16, 1, 7] {
+            for refute in [false, true] {
+                for notify in [false, true] {
+                    use foca::Message as Mg;
+                    let mut cfg = big_cfg();
+                    cfg.notify_down_members = notify;
+                    let mut a = Inst::new(own, &cfg, seed ^ (own_bumps as u64 * 31 + minc as u64), 0, 255);
+                    for k in 0..own_bumps {
+                        run_real(&mut a.foca, &Input::ApplyMany(vec![MMember { id: own, inc: k, state: 1 }], false));
+                    }
+                    let b = VId::new(1, 0, 0, 0);
+                    run_real(&mut a.foca, &Input::ApplyMany(vec![MMember { id: b, inc: minc, state: 0 }, MMember { id: other, inc: 0, state: 0 }], false));
+                    let mut timer: Option<MTimer> = None;
+                    let mut failed_b = false;
+                    for _round in 0..12 {
+                        let tok = a.snapshot().token;
+                        let (e, _) = run_real(&mut a.foca, &Input::Timer(MTimer::Probe(tok)));
+                        if failed_b {
+                            timer = e.iter().find_map(|x| if let Eff::Submit(t @ MTimer::SuspectToDown(i, _, _), _) = x { if *i == b { Some(t.clone()) } else { None } } else { None });
+                            break;
+                        }
+                        let mut ind = None;
+                        for x in &e {
+                            match x {
+                                Eff::Send(d, bytes) => {
+                                    if let Some(h) = hdr_of(bytes) {
+                                        if let Mg::Ping(k) = h.message {
+                                            if *d == b {
+                                                failed_b = true; // no answer from b in this round
+                                            } else {
+                                                run_real(&mut a.foca, &Input::Data(mk_dgram(*d, 0, own, Mg::Ack(k))));
+                                            }
+                                        }
+                                    }
+                                }
+                                Eff::Submit(t @ MTimer::Indirect(..), _) => ind = Some(t.clone()),
+                                _ => {}
+                            }
+                        }
+                        if let Some(t) = ind {
+                            run_real(&mut a.foca, &Input::Timer(t));
+                        }
+                    }
+                    out.runs += 1;
+                    out.distinct.insert(hash_of(&("genuine", own_bumps, minc, refute, notify)));
+                    let row = format!("genuine timer: own refutations={own_bumps} member incarnation={minc} refuted={refute} notify={notify}");
+                    let Some(t) = timer else {
+                        out.hit("C11:no-suspicion-timeout-after-failed-round", J::s(row));
+                        continue;
+                    };
+                    if refute {
+                        run_real(&mut a.foca, &Input::Data(mk_dgram(b, minc + 1, own, Mg::Gossip)));
+                    }
+                    let pre = a.snapshot();
+                    let (effs, _) = run_real(&mut a.foca, &Input::Timer(t.clone()));
+                    let post = a.snapshot();
+                    if refute {
+                        if !effs.is_empty() || post != pre {
+                            out.hit("C11:cancelled-timeout-has-effect", J::obj(vec![("row", J::s(row)), ("effects", J::s(format!("{effs:?}")))]));
+                        }
+                    } else {
+                        let down_now = post.members.iter().any(|m| m.id == b && m.state == 2);
+                        if !down_now || !effs.contains(&Eff::Notify(MNote::Down(b))) {
+                            out.hit("C11:unrefuted-genuine-timeout-ineffective", J::obj(vec![("row", J::s(row)), ("timer", J::s(format!("{t:?}"))), ("record", J::s(format!("{:?}", pre.members))), ("effects", J::s(format!("{effs:?}")))]));
                         }
                     }
                 }
@@ -559,11 +632,24 @@ pub fn c09(seed: u64, budget: u64) -> FOut {
                                 told.insert(m.id().a);
                             }
                         }
-                    } else if let Ok(h) = dec_header(&mut &b[..]) {
-                        told.insert(h.src.a);
-                        // partial parses may still have delivered some updates: be generous
-                        for a in 0..=9u16 {
-                            told.insert(a);
+                    } else {
+                        // not a well-formed datagram as a whole (e.g. a malformed custom-broadcast tail): the
+                        // header and a fully decodable member section may still have been applied
+                        let mut cur = &b[..];
+                        if let Ok(h) = dec_header(&mut cur) {
+                            told.insert(h.src.a);
+                            if cur.len() >= 2 {
+                                let cnt = u16::from_be_bytes([cur[0], cur[1]]);
+                                cur = &cur[2..];
+                                for _ in 0..cnt {
+                                    match dec_member(&mut cur) {
+                                        Ok(m) => {
+                                            told.insert(m.id().a);
+                                        }
+                                        Err(_) => break,
+                                    }
+                                }
+                            }
                         }
                     }
                 }
@@ -587,7 +673,7 @@ pub fn c09(seed: u64, budget: u64) -> FOut {
                 }
             }
             if post.members.len() > told.len() {
-                hits.push(("C09:more-records-than-addresses".into(), J::s(format!("{:?}", input))));
+                hits.push(("C09:more-records-than-addresses".into(), J::s(format!("{:?}; records {:?}; addresses told so far {:?}", input, post.members, told))));
             }
             for e in effs {
                 if let Eff::Notify(MNote::Rename(a, b)) = e {
@@ -1696,6 +1782,9 @@ pub fn c12(seed: u64, budget: u64) -> FOut {
         // a quarter of the members are already under suspicion (learnt through gossip: no timer of A's own is pending for them)
         let members: Vec<MMember> = (1..=n).map(|i| MMember { id: VId::new(i, 0, 0, 0), inc: g.below(3) as u16, state: (g.below(4) == 0) as u8 }).collect();
         let rseed = g.next();
+        // one layout in five: the probe number is driven around its u8 range first (253..257 acked
+        // rounds), so that the rounds examined carry the numbers 254, 255, 0, 1, 2
+        let warm_rounds = if g.below(5) == 0 { 253 + g.below(5) } else { 0 };
         for kind_fwd in [false, true] {
             for who in 0..4u8 {
                 // 0 target, 1 asked helper, 2 unasked member, 3 unknown
@@ -1703,6 +1792,31 @@ pub fn c12(seed: u64, budget: u64) -> FOut {
                     for when in 0..3u8 {
                         let mut a = Inst::new(a_id, &cfg, rseed, 0, 255);
                         run_real(&mut a.foca, &Input::ApplyMany(members.clone(), false));
+                        for _ in 0..warm_rounds {
+                            let tok = a.snapshot().token;
+                            let (e, _) = run_real(&mut a.foca, &Input::Timer(MTimer::Probe(tok)));
+                            let mut ind = None;
+                            for x in &e {
+                                match x {
+                                    Eff::Send(d, b) => {
+                                        if let Some(h) = hdr_of(b) {
+                                            if let Mg::Ping(k) = h.message {
+                                                let inc = members.iter().find(|m| m.id == *d).map(|m| m.inc).unwrap_or(0);
+                                                run_real(&mut a.foca, &Input::Data(mk_dgram(*d, inc, a_id, Mg::Ack(k))));
+                                            }
+                                        }
+                                    }
+                                    Eff::Submit(t @ MTimer::Indirect(..), _) => ind = Some(t.clone()),
+                                    _ => {}
+                                }
+                            }
+                            if let Some(t) = ind {
+                                run_real(&mut a.foca, &Input::Timer(t));
+                            }
+                        }
+                        if warm_rounds > 0 && a.snapshot().members.iter().any(|m| m.state != members.iter().find(|x| x.id == m.id).map(|x| x.state).unwrap_or(0)) {
+                            out.hit("C12:suspicion-despite-evidence", J::s(format!("during {warm_rounds} acked warm-up rounds a member changed state: {:?}", a.snapshot().members)));
+                        }
                         let s0 = a.snapshot();
                         // round start
                         let (e1, _) = run_real(&mut a.foca, &Input::Timer(MTimer::Probe(s0.token)));
@@ -1781,6 +1895,16 @@ pub fn c12(seed: u64, budget: u64) -> FOut {
                         }
                         let s2 = a.snapshot();
                         let timeouts = e3.iter().filter(|e| matches!(e, Eff::Submit(MTimer::SuspectToDown(i, _, _), _) if *i == target)).count();
+                        // the timeout must carry the snapshot the suspicion is about: the member's identity and
+                        // incarnation as recorded when it was raised, and the current epoch
+                        for e in &e3 {
+                            if let Eff::Submit(MTimer::SuspectToDown(i, tinc, ttok), _) = e {
+                                let rec_inc = s2.members.iter().find(|m| m.id == *i).map(|m| m.inc as u128);
+                                if rec_inc != Some(*tinc as u128) || *ttok as u128 != s2.token {
+                                    out.hit("C12:suspicion-timeout-snapshot-wrong", J::s(format!("timer for {i:?} carries incarnation {tinc} token {ttok}; record {rec_inc:?}, token {}", s2.token)));
+                                }
+                            }
+                        }
                         let rec = s2.members.iter().find(|m| m.id == target).cloned();
                         let suspected = rec.map(|m| m.state == 1).unwrap_or(false);
                         let genuine = match injected {
